@@ -61,6 +61,13 @@ class ProgramRunner:
             # the runs of one program; the registry itself is the library's and is only emptied of this entry)
             for r in self.resources:
                 getattr(self.cls, "_locks", {}).pop(getattr(r, "path", None), None)
+        mt_off = bool(self.prog.get("ctor_mt_off"))
+        fam = [c for c in self.info.family_classes()] if mt_off else []
+        if mt_off:
+            # the objects are created (and the main-thread preparation runs) while multithreading support is
+            # switched off - a single-threaded set-up phase - and the support is switched on before the threads start
+            for c in fam:
+                c.disable_multithreading()
         for hid, res in self.prog["roots"]:
             self.objs[hid] = self.resources[res].new_handle()
         for st in self.prog.get("pre", []):
@@ -74,6 +81,9 @@ class ProgramRunner:
                 for k in st.get("path", []):
                     node = node[k]
                 model.run_sut(node, st["op"], [model.decode(a, self_obj=node) for a in st.get("args", [])])
+        if mt_off:
+            for c in fam:
+                c.enable_multithreading()
 
     def run(self, policy, watchdog_s=30.0, record_sites=False):
         """One controlled execution. Returns (sched_result, history, final_probe, extra)."""
